@@ -2,9 +2,12 @@ package main
 
 import (
 	"bytes"
+	"context"
 	"errors"
 	"fmt"
 	"io"
+	"os"
+	"syscall"
 )
 
 // scriptedWriter fails according to a script:
@@ -17,9 +20,34 @@ type scriptedWriter struct {
 	k        int
 	calls    int
 	accepted []byte
+	err      error // what the failing call returns (nil: errScripted)
 }
 
 var errScripted = errors.New("scripted write failure")
+
+// The identity of a writer's error must not matter ("a failing io.Writer ALWAYS surfaces as a returned error"):
+// the failing call returns, in turn, an ad-hoc error, the errors of closed pipes and files, EOF, a short write, a
+// cancelled context, and wrapped forms of them.
+var writerErrors = []error{
+	errScripted,
+	io.ErrClosedPipe,
+	syscall.EPIPE,
+	&os.PathError{Op: "write", Path: "/dev/stdout", Err: syscall.EPIPE},
+	io.EOF,
+	io.ErrShortWrite,
+	os.ErrClosed,
+	context.Canceled,
+	fmt.Errorf("wrapped: %w", io.ErrClosedPipe),
+	io.ErrUnexpectedEOF,
+	syscall.ECONNRESET,
+}
+
+func (s *scriptedWriter) failure() error {
+	if s.err != nil {
+		return s.err
+	}
+	return errScripted
+}
 
 func (s *scriptedWriter) Write(p []byte) (int, error) {
 	s.calls++
@@ -37,9 +65,9 @@ func (s *scriptedWriter) Write(p []byte) (int, error) {
 	if s.mode == "partial" {
 		j := len(p) / 2
 		s.accepted = append(s.accepted, p[:j]...)
-		return j, errScripted
+		return j, s.failure()
 	}
-	return 0, errScripted
+	return 0, s.failure()
 }
 
 type countingWriter struct {
@@ -72,13 +100,16 @@ func (w *world) faultSweep(op M) M {
 	res := M{"fmt": tg.kind, "m": cw.calls, "refok": b2i(err0 == nil && p0 == ""), "refpanic": p0}
 	runs := []interface{}{}
 	for k := 1; k <= cw.calls; k++ {
-		for _, mode := range []string{"from", "only", "partial"} {
-			sw := &scriptedWriter{mode: mode, k: k}
+		for mi, mode := range []string{"from", "only", "partial"} {
+			// (the error identities rotate over calls, modes, sweeps and scenarios -- seeded by the scenario id, so that a
+			// scenario re-run alone meets the same ones)
+			sw := &scriptedWriter{mode: mode, k: k, err: writerErrors[(k+mi*4+w.salt)%len(writerErrors)]}
 			err, p := run(sw)
 			runs = append(runs, []interface{}{k, mode, b2i(err != nil), b2i(p != ""), b2i(bytes.HasPrefix(cw.b, sw.accepted))})
 		}
 	}
 	faultRuns.Add(int64(len(runs)))
+	w.salt += 5
 	res["runs"] = runs
 	return res
 }
